@@ -135,12 +135,17 @@ func (s zzLeafSnap) sameAs(c ResultContext, label string) {
 
 // zzRichCtx: the caller owns one storage entry, one lookup record of 0..3 slots and one
 // preimage; a second account can be ejected; balances are ample so that mutations succeed.
-func zzRichCtx() (OmegaInput, *Registers) {
+func zzRichCtx() (OmegaInput, *Registers) { return zzRichCtxN(-1) }
+
+func zzRichCtxN(nslots int) (OmegaInput, *Registers) {
 	caller := zzEmptyAccount(types.ServiceInfo{Balance: 1 << 40, Items: 3, Bytes: 200})
 	caller.StorageDict["a"] = []byte{zzvt.U8("stored")}
 	var lh types.OpaqueHash
 	lh[0] = 7
-	slots := make(types.TimeSlotSet, zzvt.Range("lookupSlots", 0, 3))
+	if nslots < 0 {
+		nslots = zzvt.Range("lookupSlots", 0, 3)
+	}
+	slots := make(types.TimeSlotSet, nslots)
 	for i := range slots {
 		slots[i] = types.TimeSlot(i + 1)
 	}
